@@ -8,27 +8,30 @@ EXTENDS Names
 
 NameTypes == {2, 3, 4, 5, 7, 8, 9, 12}      \* NS MD MF CNAME MB MG MR PTR
 \* decompress + lowercase embedded names of the types whose names may be compressed / compare caselessly
-CanonMsgRdata(buf, start, rdlen, type) ==
+LN(lc, n) == IF lc THEN LowerName(n) ELSE n
+\* lc = TRUE: embedded names lower-cased (canonical form); FALSE: case kept
+CanonMsgRdataG(buf, start, rdlen, type, lc) ==
   LET raw == SubSeq(buf, start + 1, start + rdlen)
       lim == SubSeq(buf, 1, start + rdlen) IN
   IF type \in NameTypes THEN
      LET d == DecodeName(lim, start) IN
-     IF d.ok /\ d.first = rdlen THEN WireOf(LowerName(d.name)) ELSE <<999>>
+     IF d.ok /\ d.first = rdlen THEN WireOf(LN(lc, d.name)) ELSE <<999>>
   ELSE IF type = 15 THEN
      IF rdlen < 3 THEN <<999>> ELSE
      LET d == DecodeName(lim, start + 2) IN
-     IF d.ok /\ d.first = rdlen - 2 THEN SubSeq(raw, 1, 2) \o WireOf(LowerName(d.name)) ELSE <<999>>
+     IF d.ok /\ d.first = rdlen - 2 THEN SubSeq(raw, 1, 2) \o WireOf(LN(lc, d.name)) ELSE <<999>>
   ELSE IF type = 33 THEN
      IF rdlen < 7 THEN <<999>> ELSE
      LET d == DecodeName(lim, start + 6) IN
-     IF d.ok /\ d.first = rdlen - 6 THEN SubSeq(raw, 1, 6) \o WireOf(LowerName(d.name)) ELSE <<999>>
+     IF d.ok /\ d.first = rdlen - 6 THEN SubSeq(raw, 1, 6) \o WireOf(LN(lc, d.name)) ELSE <<999>>
   ELSE IF type = 6 THEN
      LET m == DecodeName(lim, start) IN
      IF ~m.ok THEN <<999>> ELSE
      LET r == DecodeName(lim, start + m.first) IN
      IF ~r.ok \/ m.first + r.first + 20 # rdlen THEN <<999>>
-     ELSE WireOf(LowerName(m.name)) \o WireOf(LowerName(r.name)) \o SubSeq(raw, m.first + r.first + 1, rdlen)
+     ELSE WireOf(LN(lc, m.name)) \o WireOf(LN(lc, r.name)) \o SubSeq(raw, m.first + r.first + 1, rdlen)
   ELSE raw
+CanonMsgRdata(buf, start, rdlen, type) == CanonMsgRdataG(buf, start, rdlen, type, TRUE)
 CanonRdata(type, rd) == CanonMsgRdata(rd, 0, Len(rd), type)
 
 RECURSIVE CharStrings(_, _, _)
